@@ -49,10 +49,12 @@ CLAIMED = {
          "chunking, every limit and every Content-Length header, unbounded), that Ok is exactly the client's bytes and at most the limit, "
          "that a body over the limit is never accepted, that a size error is reported only when the body or the declared length exceeds "
          "the limit, and that BodySizeLimit::default() is Enabled(2 MB). Modular proof against an assumed contract of "
-         "http_body_util::Limited + collect. Thorough replays native tests (bodies chunked 1/3/10/64 bytes, lying headers)."),
+         "http_body_util::Limited + collect. JsonBody::extract, UrlEncodedBody::extract and url_encoded::parse are under contract too: the "
+         "typed value is the deserialisation (serde as an uninterpreted function) of exactly the buffered bytes. Native tests on every "
+         "run: bodies chunked 1/3/10/64 bytes, lying headers, and the public extractor fed by a real hyper Incoming (limits 0/1/10)."),
    note=("Assumed (trusted_base): the contract of http_body_util::Limited/collect, http header accessors and str::parse as "
-         "uninterpreted functions, ubyte's usize/ByteUnit comparison and megabytes(). JSON/form extractors inherit the bound by typing "
-         "(they take &BufferedBody). async erased (N1)."),
+         "uninterpreted functions, ubyte's usize/ByteUnit comparison and megabytes(); serde_json / serde_html_form as functions of "
+         "their input only; the Content-Type checks of the typed extractors are stand-ins without contract. async erased (N1)."),
    design="§3/C14"),
  "C13": dict(
    text=("For InMemorySessionStore, Verus discharges on the real text of every trait method (create, update, update_ttl, load, delete, "
